@@ -7,8 +7,9 @@
 // (when installed).  These writers are the oracle for bytes (evidence: assumptions / trusted_base).  The file is decoded by
 // real fq in-process (`decode("<format>")` on a binary handed over by _c15in) and the jq-visible report - member names,
 // sizes, header fields, payloads via `tobytes`, checksum validity marks - is captured as Go values by _c15s.
-// For corruption scenarios the bytes of the chosen third of the chosen region are flipped one at a time (VERIF_TIER=quick:
-// a stride) and every flipped file is decoded again.  The harness holds NO expectation: Container.tla / TraceContainer.tla
+// For corruption scenarios the bytes of the chosen third of the chosen region are flipped one at a time (every byte when the
+// third has at most 6 bytes - quick - or 16 bytes - thorough -, otherwise that many positions at a stride incl. both ends)
+// and every flipped file is decoded again.  The harness holds NO expectation: Container.tla / TraceContainer.tla
 // judge the events.  Payloads are compared by length + SHA-256 (payloads up to 64 bytes also verbatim).
 package main
 
@@ -478,7 +479,7 @@ func buildTar(rng *rand.Rand, n, p int, method, nameClass string) built {
 		w.Flush()
 		b.members = append(b.members, member{name: name, payload: pl,
 			h: []string{"typeflag=0", fmt.Sprintf("mode=%d", 0o644), fmt.Sprintf("mtime=%d", fixedTime.Unix()), "uname=user"}})
-		b.header = append(b.header, span{hdrEnd - 512, 148})       // name .. mtime (the fields before chksum)
+		b.header = append(b.header, span{hdrEnd - 512, 148})         // name .. mtime (the fields before chksum)
 		b.checksum = append(b.checksum, span{hdrEnd - 512 + 148, 6}) // the octal digits of chksum
 		b.payload = append(b.payload, span{hdrEnd, len(pl)})
 		b.uncovered = append(b.uncovered, span{hdrEnd, len(pl)})
@@ -513,7 +514,7 @@ func buildPNG(rng *rand.Rand, p int, method string, opt []string) built {
 	case "compressible":
 		wd, ht = 40+rng.Intn(20), 30
 	case "big":
-		wd, ht = 300, 120 + rng.Intn(20) // > 64 KiB of raw samples for rgb and wider
+		wd, ht = 300, 120+rng.Intn(20) // > 64 KiB of raw samples for rgb and wider
 	}
 	noisy := payloadClasses[p-1] == "incompressible" || payloadClasses[p-1] == "big"
 	r := image.Rect(0, 0, wd, ht)
@@ -638,9 +639,9 @@ func buildPNG(rng *rand.Rand, p int, method string, opt []string) built {
 		}
 	}
 	b.payload = []span{{c.off + 8, c.dlen}}
-	b.header = []span{{8 + 8, 13}}                 // IHDR data
-	b.checksum = []span{{c.off + 8 + c.dlen, 4}}   // crc of the chunk under test
-	b.uncovered = []span{{c.off, 4}}               // its length field is outside the crc
+	b.header = []span{{8 + 8, 13}}               // IHDR data
+	b.checksum = []span{{c.off + 8 + c.dlen, 4}} // crc of the chunk under test
+	b.uncovered = []span{{c.off, 4}}             // its length field is outside the crc
 	return b
 }
 
@@ -922,7 +923,7 @@ func main() {
 			}
 			limit := 6
 			if thorough {
-				limit = 48
+				limit = 16
 			}
 			cnt := hi - lo
 			if cnt <= limit {
